@@ -106,23 +106,23 @@ pub struct SegCfg {
 pub const K: usize = 12; // pool slots; 0 = True, 1 = False are fixed
 
 /// Per-mode operation weights. Order of ops must match `OPS`.
-const OPS: [&str; 30] = [
+const OPS: [&str; 31] = [
     "var", "neg", "and", "or", "xor", "iff", "ite", "cond", "condm", "exists", "compose", "andl",
     "orl", "newvar", "eq", "recheck", "cnf", "cnfa", "expr", "plan", "smooth", "wmc", "eval",
-    "count", "semhash", "mmap", "meu", "bb", "uwmc", "cmpl",
+    "count", "semhash", "mmap", "meu", "bb", "uwmc", "cmpl", "bfold",
 ];
 
-fn weights(mode: &str) -> [usize; 30] {
+fn weights(mode: &str) -> [usize; 31] {
     //                 var neg and or xor iff ite cond condm ex comp andl orl newv eq rechk cnf cnfa expr plan smooth wmc eval count semh mmap meu bb uwmc cmpl
     match mode {
-        "c01" => [5, 3, 8, 8, 6, 6, 10, 6, 4, 6, 6, 3, 3, 1, 0, 2, 0, 0, 0, 0, 0, 0, 0, 0, 0, 0, 0, 0, 0, 0],
-        "c02" | "c16" => [5, 3, 8, 8, 6, 6, 10, 6, 3, 6, 5, 2, 2, 1, 8, 2, 1, 0, 1, 0, 0, 0, 0, 0, 0, 0, 0, 0, 0, 0],
-        "c05" => [2, 1, 2, 2, 1, 1, 2, 1, 1, 1, 0, 0, 0, 0, 0, 0, 8, 8, 8, 8, 0, 0, 0, 0, 0, 0, 0, 0, 0, 0],
-        "c07" => [4, 2, 5, 5, 4, 4, 6, 3, 1, 3, 2, 1, 1, 1, 0, 0, 2, 0, 1, 0, 0, 12, 6, 0, 0, 0, 0, 0, 6, 0],
-        "c08" => [4, 2, 5, 5, 4, 4, 6, 3, 1, 3, 2, 1, 1, 0, 0, 0, 1, 0, 1, 0, 14, 0, 0, 0, 0, 0, 0, 0, 12, 0],
-        "c10" => [3, 2, 4, 4, 3, 3, 5, 5, 4, 3, 2, 1, 1, 0, 1, 1, 1, 1, 0, 0, 12, 6, 4, 5, 5, 4, 4, 4, 4, 0],
-        "c11" => [4, 2, 5, 5, 4, 4, 6, 3, 1, 3, 2, 1, 1, 0, 0, 0, 2, 0, 1, 0, 0, 0, 0, 0, 14, 0, 0, 0, 0, 0],
-        "c12" => [4, 2, 5, 5, 4, 4, 6, 3, 1, 3, 2, 1, 1, 0, 0, 0, 2, 0, 1, 0, 0, 0, 0, 0, 0, 8, 8, 8, 0, 0],
+        "c01" => [5, 3, 8, 8, 6, 6, 10, 6, 4, 6, 6, 3, 3, 1, 0, 2, 0, 0, 0, 0, 0, 0, 0, 0, 0, 0, 0, 0, 0, 0, 0],
+        "c02" | "c16" => [5, 3, 8, 8, 6, 6, 10, 6, 3, 6, 5, 2, 2, 1, 8, 2, 1, 0, 1, 0, 0, 0, 0, 0, 0, 0, 0, 0, 0, 0, 0],
+        "c05" => [2, 1, 2, 2, 1, 1, 2, 1, 1, 1, 0, 0, 0, 0, 0, 0, 8, 8, 8, 8, 0, 0, 0, 0, 0, 0, 0, 0, 0, 0, 0],
+        "c07" => [4, 2, 5, 5, 4, 4, 6, 3, 1, 3, 2, 1, 1, 1, 0, 0, 2, 0, 1, 0, 0, 12, 6, 0, 0, 0, 0, 0, 6, 0, 3],
+        "c08" => [4, 2, 5, 5, 4, 4, 6, 3, 1, 3, 2, 1, 1, 0, 0, 0, 1, 0, 1, 0, 14, 0, 0, 0, 0, 0, 0, 0, 12, 0, 0],
+        "c10" => [3, 2, 4, 4, 3, 3, 5, 5, 4, 3, 2, 1, 1, 0, 1, 1, 1, 1, 0, 0, 12, 6, 4, 5, 5, 4, 4, 4, 4, 0, 5],
+        "c11" => [4, 2, 5, 5, 4, 4, 6, 3, 1, 3, 2, 1, 1, 0, 0, 0, 2, 0, 1, 0, 0, 0, 0, 0, 14, 0, 0, 0, 0, 0, 0],
+        "c12" => [4, 2, 5, 5, 4, 4, 6, 3, 1, 3, 2, 1, 1, 0, 0, 0, 2, 0, 1, 0, 0, 0, 0, 0, 0, 8, 8, 8, 0, 0, 0],
         _ => panic!("unknown bdd mode {mode}"),
     }
 }
@@ -530,6 +530,27 @@ impl<'a, T: IteTable<'a, BddPtr<'a>> + Default> Session<'a, T> {
                 ev["a"] = json!([a]);
                 let x = self.pool[a];
                 guarded(|| x.count_nodes()).map(|v| ev["val"] = json!(v))
+            }
+            "bfold" => {
+                // the public generic fold (per-node memo for both polarities, cleared on return) with two integer folds:
+                //   0: low_v = 0, high_v = 1, f(v, l, h) = l + h           (number of paths to the true terminal)
+                //   1: low_v = 1, high_v = 2, f(v, l, h) = l + 2 h + v + 1
+                // smoothed (deliberately unreduced) diagrams are left out: the fold follows the structure
+                let mut a = self.arg(rng, false);
+                if self.smoothed[a] {
+                    a = 0;
+                }
+                let which = rng.below(2);
+                ev["a"] = json!([a, which]);
+                let x = self.pool[a];
+                guarded(|| {
+                    if which == 0 {
+                        x.bdd_fold(&|_v: VarLabel, l: i64, h: i64| l + h, 0i64, 1i64)
+                    } else {
+                        x.bdd_fold(&|v: VarLabel, l: i64, h: i64| l + 2 * h + v.value() as i64 + 1, 1i64, 2i64)
+                    }
+                })
+                .map(|v| ev["val"] = json!(v))
             }
             "semhash" => {
                 let a = self.arg(rng, true);
